@@ -49,6 +49,9 @@ pub assume_specification<T, A: std::alloc::Allocator> [std::vec::Vec::<T, A>::ca
    ensures r == spec_vec_capacity(v), r >= v.len();
 /// R12: `Vec::with_capacity(n)` allocates room for at least n elements (std documentation); vstd's own specification only says "empty"
 #[verifier::external_body] pub fn vshim_with_capacity<T>(n: usize) -> (v: Vec<T>) ensures v@.len() == 0, spec_vec_capacity(&v) >= n { Vec::with_capacity(n) }
+/// `Vec::reserve_exact(k)` / `Vec::reserve(k)` (std documentation): afterwards capacity >= len + k; the contents are unchanged
+pub assume_specification<T, A: std::alloc::Allocator> [std::vec::Vec::<T, A>::reserve_exact] (v: &mut std::vec::Vec<T, A>, additional: usize)
+   ensures final(v)@ == old(v)@, spec_vec_capacity(final(v)) >= old(v)@.len() + additional;
 pub assume_specification<T, A: std::alloc::Allocator> [std::vec::Vec::<T, A>::into_boxed_slice] (v: std::vec::Vec<T, A>) -> (r: std::boxed::Box<[T], A>)
    ensures r@ == v@;
 } // verus!
